@@ -7,7 +7,8 @@
 // Step-level ops (add, size, wm) exercise writeBatch / partitionWriter through
 // the hooks of /repo/verif_export_writer.go; cfgd checks the defaulting of the
 // Writer options (VerifWriterEffective of verif_export_writer2.go); pdl and pto
-// show which timeout option limits the produce round trip; prr and pr drive the response
+// show which timeout option limits the produce round trip; nwc reads back what
+// NewWriter makes of a WriterConfig; rtb prints the retry classification; prr and pr drive the response
 // mapping of (*kafka.Client).Produce through a scripted RoundTripper; e2e runs the real kafka.Writer on
 // the fake cluster of kverif/fakert and prints the globally sequenced history;
 // f3 replays the Close / WriteMessages race.  All numbers are lowercase hex.
@@ -30,6 +31,7 @@ import (
 	"time"
 
 	kafka "github.com/segmentio/kafka-go"
+	"github.com/segmentio/kafka-go/compress"
 	"github.com/segmentio/kafka-go/protocol/produce"
 	"kverif/fakert"
 	"kverif/kvfmt"
@@ -295,6 +297,8 @@ type plan struct {
 	bigLeft       int  // near-1MiB messages still allowed in this scenario
 
 	// effective configuration read from the scenario's Writer (VerifWriterEffective)
+	readTimeout, writeTimeout time.Duration // explicit values (0 = the harness' 5 s unless left at zero)
+
 	effSet                  bool
 	effBS, effBB, effMaxAtt int
 }
@@ -317,7 +321,7 @@ var budgetTimeout, budgetBackoff = 8, 8
 var boundaryCodes = []int{fakert.Enc(-1), fakert.Enc(-2), fakert.Enc(-32768), 1, 127, 128, 255, 256, 32767}
 var kafkaCodes = append([]int{1, 2, 3, 5, 6, 7, 10, 13, 17, 19, 20, 29, 87}, boundaryCodes...)
 var netCodes = []int{fakert.CodeUnexpectedEOF, fakert.CodeConnReset, fakert.CodePipe, fakert.CodeConnRefused,
-	fakert.CodeDeadline, fakert.CodeBoom, fakert.CodeTemp}
+	fakert.CodeDeadline, fakert.CodeBoom, fakert.CodeTemp, fakert.CodeEOF}
 
 // seenErr is the error as (*partitionWriter).writeBatch sees it.
 func seenErr(code int) error {
@@ -327,7 +331,21 @@ func seenErr(code int) error {
 	return fmt.Errorf("kafka.(*Client).Produce: %w", fakert.ErrOf(code))
 }
 
+// retriable asks the code under test. It feeds ONLY the informational
+// retriable list of the cfg token and the rtb op: the classification is part
+// of the specification on the model side, so nothing the harness decides
+// (generator choices, feature tags, verdicts) may depend on it.
 func retriable(code int) bool { return kafka.VerifRetriable(seenErr(code)) }
+
+// specRetriable is the harness' own table for the codes of its fault alphabet
+// (Kafka codes with a temporary condition; the transient network errors,
+// deadline and Temporary() errors; NOT a plain io.EOF, NOT "boom"). It steers
+// the generator and the feature tags only.
+var specRetriableCodes = map[int]bool{2: true, 3: true, 5: true, 6: true, 7: true, 13: true, 19: true, 20: true,
+	fakert.CodeUnexpectedEOF: true, fakert.CodeConnReset: true, fakert.CodePipe: true, fakert.CodeConnRefused: true,
+	fakert.CodeDeadline: true, fakert.CodeTemp: true}
+
+func specRetriable(code int) bool { return specRetriableCodes[code] }
 
 const minE2ESize = 32 // 1-byte key, 8-byte value
 
@@ -568,6 +586,14 @@ func plainMsg(id uint64, tm time.Time) planMsg {
 	return planMsg{id: id, topic: -1, part: 0, size: int(kafka.VerifTotalSize(km)), msg: km}
 }
 
+// sizedPlainMsg is plainMsg with a chosen total size (>= 32) and partition.
+func sizedPlainMsg(id uint64, size, part int) planMsg {
+	v := make([]byte, size-24)
+	binary.BigEndian.PutUint64(v, id)
+	km := kafka.Message{Key: []byte{byte(part)}, Value: v}
+	return planMsg{id: id, topic: -1, part: part, size: int(kafka.VerifTotalSize(km)), msg: km}
+}
+
 func genPlan(r *rand.Rand) *plan {
 	p := &plan{feat: map[string]bool{}, faults: map[fakert.TP][]fakert.Reaction{}}
 	nt := 1 + r.Intn(3)
@@ -746,7 +772,7 @@ func genPlan(r *rand.Rand) *plan {
 				var re fakert.Reaction
 				for {
 					re = genReaction(r, true)
-					if retriable(re.Code) && !(p.acks == kafka.RequireNone && re.Kind == fakert.RejectedCode) {
+					if specRetriable(re.Code) && !(p.acks == kafka.RequireNone && re.Kind == fakert.RejectedCode) {
 						break
 					}
 				}
@@ -1268,9 +1294,15 @@ func (p *plan) buildWriter(fake *fakert.Fake) *kafka.Writer {
 	}
 	if !p.zReadTimeout {
 		rt = 5 * time.Second
+		if p.readTimeout > 0 {
+			rt = p.readTimeout
+		}
 	}
 	if !p.zWriteTimeout {
 		wt = 5 * time.Second
+		if p.writeTimeout > 0 {
+			wt = p.writeTimeout
+		}
 	}
 	var bal kafka.Balancer
 	if !p.balancerNil {
@@ -1350,6 +1382,14 @@ func runScenario(p *plan, release func()) line {
 	}
 	ebs, ebb, ema, _, _, _, _, _ := kafka.VerifWriterEffective(w)
 	p.effBS, p.effBB, p.effMaxAtt, p.effSet = ebs, int(ebb), ema, true
+	if p.newWriter {
+		// For NewWriter the limit the documentation promises is the CONFIGURED
+		// one (WriterConfig.BatchBytes if > 0, else 1048576 - which is what
+		// p.batchBytes holds), so that a field lost between WriterConfig and
+		// Writer shows as a violation of the limits. The mapping of every
+		// WriterConfig field onto the Writer itself is what the nwc op checks.
+		p.effBB = p.batchBytes
+	}
 	s.w = w
 
 	var wg sync.WaitGroup
@@ -1373,6 +1413,11 @@ func runScenario(p *plan, release func()) line {
 	go func() { wg.Wait(); close(callersDone) }()
 
 	finish := func() line {
+		// A RoundTrip abandoned by the writer may still be inside the fake:
+		// let it land so that the history and the logs show it.
+		for i := 0; i < 200 && fake.InFlight() > 0; i++ {
+			time.Sleep(5 * time.Millisecond)
+		}
 		events := hist.Freeze()
 		tps, logs := fake.Logs()
 		for i, tp := range tps {
@@ -1381,6 +1426,10 @@ func runScenario(p *plan, release func()) line {
 		s.mu.Lock()
 		res := s.result
 		s.mu.Unlock()
+		if res == "" && fake.TwoInFlight() { // before the other anomalies
+			res = "ANOMALY:two-in-flight"
+			fmt.Fprintf(os.Stderr, "writer: %s %s\n", p.cfg(), res)
+		}
 		if d := fake.RecordAnomaly(); d != "" {
 			s.anomaly("record-attrs", d)
 		}
@@ -1455,7 +1504,7 @@ func (s *scRun) observedFeatures(journal []fakert.Attempt, events []string) {
 			continue
 		}
 		faulty = true
-		r := retriable(a.Seen)
+		r := specRetriable(a.Seen)
 		switch {
 		case a.Applied:
 			f["lost"] = true
@@ -1481,7 +1530,7 @@ func (s *scRun) observedFeatures(journal []fakert.Attempt, events []string) {
 		if strings.HasPrefix(e, "K") && !strings.HasPrefix(e, "K-:") {
 			var code int
 			fmt.Sscanf(e[1:strings.Index(e, ":")], "%x", &code)
-			if retriable(code) {
+			if specRetriable(code) {
 				f["exhausted"] = true
 			}
 		}
@@ -1667,6 +1716,214 @@ func defaultBatchBytesPlans() []*plan {
 		}
 	}
 	return plans
+}
+
+// newWriterBatchBytesPlans: NewWriter(WriterConfig{BatchBytes: 200, BatchSize:
+// 10, ...}): a 201-byte message first / middle / last makes its call fail with
+// nothing sent, and five 60-byte messages are cut into requests of <= 200 bytes.
+func newWriterBatchBytesPlans() []*plan {
+	var plans []*plan
+	for _, async := range []bool{false, true} {
+		for pos := 0; pos < 3; pos++ {
+			p := &plan{feat: map[string]bool{}, faults: map[fakert.TP][]fakert.Reaction{}}
+			p.topics = []int{1}
+			p.acks = kafka.RequireAll
+			p.newWriter = true
+			p.batchSize = 10
+			p.batchBytes = 200
+			p.sizeBB = 200
+			p.maxAttempts = 3
+			p.async = async
+			p.wtopic = 0
+			p.det = true
+			p.batchTimeout = 200 * time.Millisecond
+			if async {
+				p.batchTimeout = time.Hour
+			}
+			p.backoffMin = time.Millisecond
+			p.backoffMax = time.Millisecond
+			var c0, c1 planCall
+			c0.times, c1.times = "zero", "zero"
+			for i := 0; i < 3; i++ {
+				size := 40
+				if i == pos {
+					size = 201
+				}
+				c0.msgs = append(c0.msgs, sizedPlainMsg(uint64(i+1), size, 0))
+			}
+			for i := 0; i < 5; i++ {
+				c1.msgs = append(c1.msgs, sizedPlainMsg(uint64(i+4), 60, 0))
+			}
+			p.callers = [][]planCall{{c0, c1}}
+			p.planFeatures()
+			p.feat["newwriter-batchbytes"] = true
+			p.feat["pos="+[]string{"first", "middle", "last"}[pos]] = true
+			plans = append(plans, p)
+		}
+	}
+	return plans
+}
+
+// lateLandingPlans: the first produce request of partition 0 is Held inside the
+// fake, ignoring the context, for longer than WriteTimeout. A correct writer
+// stays in that round trip, sees the acknowledgement and goes on: one request
+// per batch, the log in submission order. det=0 (timed).
+func lateLandingPlans() []*plan {
+	var plans []*plan
+	for _, async := range []bool{false, true} {
+		for variant := 0; variant < 3; variant++ {
+			p := &plan{feat: map[string]bool{}, faults: map[fakert.TP][]fakert.Reaction{}}
+			p.acks = kafka.RequireAll
+			p.batchSize = 1
+			p.batchBytes = 1000
+			p.sizeBB = 1000
+			p.maxAttempts = 3
+			p.async = async
+			p.wtopic = 0
+			p.det = false
+			p.batchTimeout = 10 * time.Millisecond
+			p.backoffMin = 5 * time.Millisecond
+			p.backoffMax = 5 * time.Millisecond
+			p.readTimeout = time.Second
+			hold := 350 * time.Millisecond
+			p.writeTimeout = 100 * time.Millisecond
+			p.topics = []int{1}
+			var c0, c1 planCall
+			c0.times, c1.times = "zero", "zero"
+			switch variant {
+			case 1:
+				hold, p.writeTimeout = 250*time.Millisecond, 60*time.Millisecond
+				fallthrough
+			case 0:
+				c0.msgs = []planMsg{sizedPlainMsg(1, 40, 0)}
+				c1.msgs = []planMsg{sizedPlainMsg(2, 40, 0)}
+			default: // two partitions, only partition 0 is held, partition 1 carries two batches
+				p.topics = []int{2}
+				c0.msgs = []planMsg{sizedPlainMsg(1, 40, 0), sizedPlainMsg(2, 40, 1)}
+				c1.msgs = []planMsg{sizedPlainMsg(3, 40, 0), sizedPlainMsg(4, 40, 1)}
+			}
+			p.faults[fakert.TP{Topic: "t0", Partition: 0}] = []fakert.Reaction{{Kind: fakert.Held, Delay: hold}}
+			p.callers = [][]planCall{{c0, c1}}
+			p.planFeatures()
+			for _, t := range []string{"late-landing", "held", "ctx-ignoring-roundtripper"} {
+				p.feat[t] = true
+			}
+			plans = append(plans, p)
+		}
+	}
+	return plans
+}
+
+// ---------------------------------------------------------------------------
+// step level: NewWriter's mapping of WriterConfig onto the Writer (op nwc)
+
+func genNWC(r *rand.Rand, allZero bool) line {
+	num := func(max int64) int64 {
+		if allZero || r.Intn(3) == 0 {
+			return 0
+		}
+		return 1 + r.Int63n(max)
+	}
+	bbytes := num(1 << 20)
+	if bbytes > 0 && r.Intn(3) == 0 {
+		bbytes = 1<<20 + r.Int63n(1<<22) // above 1 MiB too
+	}
+	maxAtt, bsize := num(1000), num(100000)
+	bt, rt, wt := num(1000000), num(1000000), num(1000000)
+	acks := []int{0, 1, -1}[r.Intn(3)]
+	async, balNil, codec, topicSet, logger, elogger, nb := r.Intn(2) == 0, r.Intn(2) == 0, r.Intn(5), r.Intn(2) == 0, r.Intn(2) == 0, r.Intn(2) == 0, 1+r.Intn(3)
+	if allZero {
+		acks, async, balNil, codec, topicSet, logger, elogger, nb = 0, false, true, 0, false, false, false, 1
+	}
+	ms := func(x int64) time.Duration { return time.Duration(x) * time.Millisecond }
+	cfg := kafka.WriterConfig{
+		MaxAttempts:  int(maxAtt),
+		BatchSize:    int(bsize),
+		BatchBytes:   int(bbytes),
+		BatchTimeout: ms(bt),
+		ReadTimeout:  ms(rt),
+		WriteTimeout: ms(wt),
+		RequiredAcks: acks,
+		Async:        async,
+	}
+	for i := 0; i < nb; i++ {
+		cfg.Brokers = append(cfg.Brokers, fmt.Sprintf("b%d:9092", i))
+	}
+	if !balNil {
+		if r.Intn(2) == 0 {
+			cfg.Balancer = &kafka.Hash{}
+		} else {
+			cfg.Balancer = keyBalancer
+		}
+	}
+	if codec != 0 {
+		cfg.CompressionCodec = compress.Codecs[codec]
+	}
+	if topicSet {
+		cfg.Topic = "t0"
+	}
+	if logger {
+		cfg.Logger = kafka.LoggerFunc(func(string, ...interface{}) {})
+	}
+	if elogger {
+		cfg.ErrorLogger = kafka.LoggerFunc(func(string, ...interface{}) {})
+	}
+	w := kafka.NewWriter(cfg)
+	ebs, ebb, ema, ebt, emin, emax, ert, ewt := kafka.VerifWriterEffective(w)
+	bal := "given"
+	if _, ok := w.Balancer.(*kafka.RoundRobin); ok {
+		bal = "rr"
+	}
+	naddr := 0
+	if w.Addr != nil {
+		naddr = len(strings.Split(w.Addr.String(), ","))
+	}
+	toMs := func(d time.Duration) string { return kvfmt.I(int64(d / time.Millisecond)) }
+	res := strings.Join([]string{
+		hx(ebs), kvfmt.I(ebb), hx(ema), toMs(ebt), toMs(emin), toMs(emax), toMs(ert), toMs(ewt),
+		kvfmt.I(int64(w.RequiredAcks)), kvfmt.Bool(w.Async), bal, kvfmt.I(int64(w.Compression)),
+		kvfmt.Bool(w.Topic == "t0"), kvfmt.Bool(w.Logger != nil), kvfmt.Bool(w.ErrorLogger != nil), hx(naddr),
+	}, ":")
+	args := strings.Join([]string{
+		kvfmt.I(maxAtt), kvfmt.I(bsize), kvfmt.I(bbytes), kvfmt.I(bt), kvfmt.I(rt), kvfmt.I(wt),
+		kvfmt.I(int64(acks)), kvfmt.Bool(async), kvfmt.Bool(balNil), hx(codec), kvfmt.Bool(topicSet),
+		kvfmt.Bool(logger), kvfmt.Bool(elogger), hx(nb),
+	}, " ")
+	zeros := 0
+	for _, v := range []int64{maxAtt, bsize, bbytes, bt, rt, wt} {
+		if v == 0 {
+			zeros++
+		}
+	}
+	feat := map[string]bool{fmt.Sprintf("zero-fields=%d", zeros): true}
+	if bbytes > 0 && bbytes < 1<<20 {
+		feat["batchbytes<1mib"] = true
+	}
+	return line{"nwc", args, res, kvfmt.Set(feat)}
+}
+
+// ---------------------------------------------------------------------------
+// step level: the retry classification of the code under test (op rtb)
+
+// genRTB prints, one line per error class, whether the writer's retry test
+// holds for the error exactly as writeBatch sees it. The verdict on these
+// lines is the model's (its own table); nothing else in the harness uses them.
+func genRTB() []line {
+	var lines []line
+	add := func(enc int, tag string) {
+		lines = append(lines, line{"rtb", hx(enc), kvfmt.Bool(retriable(enc)), tag})
+	}
+	add(fakert.Enc(-1), "kafka-code")
+	for c := 1; c <= 120; c++ {
+		add(c, "kafka-code")
+	}
+	for _, c := range []int{127, 128, 255, 256, 32767, -2, -32768} {
+		add(fakert.Enc(c), "kafka-code")
+	}
+	for c := fakert.CodeUnexpectedEOF; c <= fakert.CodeEOF; c++ {
+		add(c, "transport")
+	}
+	return lines
 }
 
 // ---------------------------------------------------------------------------
@@ -2278,6 +2535,11 @@ func main() {
 	}
 	lines = append(lines, genPDLs(r)...)
 	lines = append(lines, runPTOs()...)
+	lines = append(lines, genNWC(r, true))
+	for i := 0; i < 150; i++ {
+		lines = append(lines, genNWC(r, false))
+	}
+	lines = append(lines, genRTB()...)
 
 	// e2e: all plans come from the one PRNG first, then run concurrently; the
 	// fixed boundary-code scenarios follow the generated ones.
@@ -2289,6 +2551,8 @@ func main() {
 	plans = append(plans, boundaryPlans()...)
 	plans = append(plans, timeOrderPlans()...)
 	plans = append(plans, defaultBatchBytesPlans()...)
+	plans = append(plans, newWriterBatchBytesPlans()...)
+	plans = append(plans, lateLandingPlans()...)
 	results := make([]line, len(plans))
 	sem := make(chan struct{}, *jobs)
 	var wg sync.WaitGroup
